@@ -86,7 +86,7 @@ func propC01(r *kernel.Run) {
 		privOf[string(id.EncPub)] = id.EncPriv
 	}
 
-	nops := tp.Range(6, 40)
+	nops := tp.Range(6, r.Deep(40, 120))
 	var hist []string
 	for op := 0; op < nops; op++ {
 		switch k := tp.Draw(12); {
